@@ -39,6 +39,12 @@ def gen_session(rng, tier, i):
         tb.append(model.clone(rng.choice(tb)))          # repeated identical sentence
         tb[-1]["sid"] = tb[-2]["sid"] + 1
     source = rng.choice(["api", "api", "export", "tigerxml", "discobrackets"])
+    if source == "api" and rng.random() < 0.04:
+        tb.append(model.deep_sentence(rng, rng.choice([66, 70, 90]), sid=800))
+    if rng.random() < 0.04:
+        tb.append(model.comb_sentence(rng, rng.choice([9, 10, 11, 12]), sid=801))
+        if source == "export":
+            source = "api"
     if source == "api" and rng.random() < 0.15:
         # a tree that is a single token: one lexicon occurrence, no rule
         tb.insert(rng.randrange(len(tb) + 1), model.token_tree(rng, k, sid=900))
